@@ -137,3 +137,77 @@ package gogu
 //@   ensures 0 <= nth && nth < len(slice) ==> result1 == nil && result0 == slice[nth]
 //@   ensures 0 - len(slice) <= nth && nth < 0 ==> result1 == nil && result0 == slice[len(slice)+nth]
 //@   ensures nth >= len(slice) || nth < 0 - len(slice) ==> result1 != nil
+
+//@ func gogu.Min
+//@   property C13 C16
+//@   ghost w int = 0
+//@   ensures len(values) == 0 ==> result == zero
+//@   ensures len(values) > 0 ==> 0 <= w && w < len(values) && values[w] == result
+//@   ensures forall j int :: 0 <= j && j < len(values) ==> result <= values[j]
+//@ loop 1
+//@   invariant 0 <= w && w < len(values) && values[w] == acc
+//@   invariant forall j int :: 0 <= j && j < $i ==> acc <= values[j]
+//@   ghost w = $i when v < pre(acc)
+
+//@ func gogu.Max
+//@   property C13 C16
+//@   ghost w int = 0
+//@   ensures len(values) == 0 ==> result == zero
+//@   ensures len(values) > 0 ==> 0 <= w && w < len(values) && values[w] == result
+//@   ensures forall j int :: 0 <= j && j < len(values) ==> result >= values[j]
+//@ loop 1
+//@   invariant 0 <= w && w < len(values) && values[w] == acc
+//@   invariant forall j int :: 0 <= j && j < $i ==> acc >= values[j]
+//@   ghost w = $i when v > pre(acc)
+
+//@ func gogu.FindMinBy
+//@   property C13 C16
+//@   requires fn != nil
+//@   ghost w int = 0
+//@   ensures len(s) == 0 ==> result == zero
+//@   ensures len(s) > 0 ==> 0 <= w && w < len(s) && result == s[w]
+//@   ensures forall m int :: 0 <= m && m < len(s) ==> call(fn, s[w]) <= call(fn, s[m])
+//@   ensures forall m int :: 0 <= m && m < w ==> call(fn, s[m]) > call(fn, s[w])
+//@ loop 1
+//@   invariant 0 <= i && i <= len(s)
+//@   invariant len(s) == 0 ==> min == zero
+//@   invariant len(s) > 0 ==> 0 <= w && w < len(s) && w <= i && min == s[w]
+//@   invariant forall m int :: 0 <= m && m < i ==> call(fn, s[w]) <= call(fn, s[m])
+//@   invariant forall m int :: 0 <= m && m < w ==> call(fn, s[m]) > call(fn, s[w])
+//@   ghost w = pre(i) when call(fn, s[pre(i)]) < call(fn, pre(min))
+
+//@ func gogu.FindMaxBy
+//@   property C13 C16
+//@   requires fn != nil
+//@   ghost w int = 0
+//@   ensures len(s) == 0 ==> result == zero
+//@   ensures len(s) > 0 ==> 0 <= w && w < len(s) && result == s[w]
+//@   ensures forall m int :: 0 <= m && m < len(s) ==> call(fn, s[w]) >= call(fn, s[m])
+//@   ensures forall m int :: 0 <= m && m < w ==> call(fn, s[m]) < call(fn, s[w])
+//@ loop 1
+//@   invariant 0 <= i && i <= len(s)
+//@   invariant len(s) == 0 ==> max == zero
+//@   invariant len(s) > 0 ==> 0 <= w && w < len(s) && w <= i && max == s[w]
+//@   invariant forall m int :: 0 <= m && m < i ==> call(fn, s[w]) >= call(fn, s[m])
+//@   invariant forall m int :: 0 <= m && m < w ==> call(fn, s[m]) < call(fn, s[w])
+//@   ghost w = pre(i) when call(fn, s[pre(i)]) > call(fn, pre(max))
+
+//@ ufun sumTo(a seq[int], off int, n int) int
+//@ axiom sumTo_def: forall a seq[int], off int, n int :: { sumTo(a, off, n) } sumTo(a, off, n) == (n <= 0 ? 0 : sumTo(a, off, n-1) + a[off+n-1])
+
+//@ func gogu.Sum
+//@   property C13 C16
+//@   arith ring
+//@   ensures result == sumTo(elems(slice), soff(slice), len(slice))
+//@ loop 1
+//@   invariant 0 <= $i && $i <= len(slice)
+//@   invariant acc == sumTo(elems(slice), soff(slice), $i)
+
+//@ func gogu.Mean
+//@   property C13 C16
+//@   arith ring
+//@   requires len(slice) > 0
+//@   ensures result == sumTo(elems(slice), soff(slice), len(slice)) / len(slice)
+//@ loop 1
+//@   invariant 0 <= i && i <= len(slice)
+//@   invariant result == sumTo(elems(slice), soff(slice), i)
